@@ -50,6 +50,8 @@ func runC07(c *Ctx) {
 	c.rule("V5", "closeableResource.Close sets closed=true before every nil return; IsClosed returns that flag", 2)
 	c.rule("Z1", "zip walker: entry name = filepath.Rel(source, path) (+\"/\" for directories), Modified = info.ModTime(), content = the opened path copied whole into the entry writer", 5)
 	c.rule("Z3", "unzip: the name joined to the destination is the entry's zip.FileHeader.Name itself (charset transcoding aside)", 1)
+	c.rule("V6", "a method of the filesystem that is handed an already opened file consults the closed guard before it touches that handle: a handle taken before Close() serves nothing afterwards", 4)
+	c.rule("V7", "where the guard found the filesystem closed, the error returned is the guard's own ('failed condition'), not a fresh error of another kind", 30)
 	c.rule("Z4", "unzip: every way round the entry loop that creates an entry appends its path (or the paths of the nested extraction) to the list returned, in that same iteration", 2)
 	c.rule("Z2", "unzip: file times restored from the entry's info after the copy; directory infos recorded and restored after the loop before the successful return", 3)
 
@@ -61,6 +63,7 @@ func runC07(c *Ctx) {
 	c.c07UnzipTimes()
 	c.c07NamesVerbatim()
 	c.c07Listed()
+	c.c07Handles()
 }
 
 func (c *Ctx) c07Guard() {
@@ -663,6 +666,111 @@ func (c *Ctx) c07Listed() {
 		c.check(hit == nil, "Z4", fname(unzip)+"/listed/"+st.what, c.ipos(st.in), "every iteration that creates this kind of entry lists it (or the nested extraction's paths)",
 			"there is a way round the entry loop that creates this entry without anything having been appended to the list returned: the list does not name every entry created")
 	}
+}
+
+// c07Handles (V6, V7). V1 guards every access to the backend; a method that works on a handle obtained earlier
+// does not go through the backend at all (afero's tarfs keeps every entry in memory: a stale handle still reads), so
+// the guard has to come before the first use of the handle. V7: the guard's verdict keeps its kind.
+func (c *Ctx) c07Handles() {
+	for _, f := range c.srcFuncs(fsPkgRel) {
+		if f.Parent() != nil || f.Signature.Recv() == nil || !isVFSPtr(f.Signature.Recv().Type()) || f.Object() == nil || !f.Object().Exported() {
+			continue
+		}
+		var handles []*ssa.Parameter
+		for _, p := range f.Params[1:] {
+			t := p.Type().String()
+			if strings.HasSuffix(t, "filesystem.File") || strings.HasSuffix(t, "afero.File") {
+				handles = append(handles, p)
+			}
+		}
+		if len(handles) == 0 {
+			continue
+		}
+		c.FuncsSeen[fname(f)] = true
+		var guards []*ssa.Call
+		allInstrs(f, func(in ssa.Instruction) {
+			if call, ok := in.(*ssa.Call); ok && calleeFull(&call.Call) == vfsGuard && sameObject(call.Call.Args[0], f.Params[0]) {
+				guards = append(guards, call)
+			}
+		})
+		for _, h := range handles {
+			key := fname(f) + "/handle:" + h.Name()
+			bad := ""
+			for _, r := range *h.Referrers() {
+				in, ok := r.(ssa.Instruction)
+				if !ok {
+					continue
+				}
+				switch x := in.(type) {
+				case *ssa.DebugRef:
+					continue
+				case *ssa.BinOp:
+					if isNilConst(x.X) || isNilConst(x.Y) {
+						continue // a nil test does not touch the handle
+					}
+				}
+				guarded := false
+				for _, g := range guards {
+					if dominates(g, in) && onNilSide(g, in) {
+						guarded = true
+					}
+				}
+				if !guarded {
+					bad = c.ipos(in)
+				}
+			}
+			c.check(bad == "", "V6", key, c.pos(f.Pos()), "every use of the handle lies after the closed guard, on its nil side",
+				"the handle is used at "+bad+" without the closed guard having been consulted first: a handle taken while the archive filesystem was open is still served after Close() (the tar view keeps its entries in memory)")
+		}
+	}
+	// V7
+	for _, f := range c.srcFuncs(fsPkgRel) {
+		res := f.Signature.Results()
+		if res.Len() == 0 || !isErrorType(res.At(res.Len()-1).Type()) {
+			continue
+		}
+		k := res.Len() - 1
+		n := 0
+		allInstrs(f, func(in ssa.Instruction) {
+			call, ok := in.(*ssa.Call)
+			if !ok || calleeFull(&call.Call) != vfsGuard {
+				return
+			}
+			n++
+			key := fname(f) + "/guard-error-kept"
+			if n > 1 {
+				key += "#" + strconv.Itoa(n)
+			}
+			bad := ""
+			for _, b := range f.Blocks {
+				r, ok := b.Instrs[len(b.Instrs)-1].(*ssa.Return)
+				if !ok || !onNonNilSide(call, r) {
+					continue
+				}
+				val := returnedAlongAny(r, k)
+				for _, l := range sources(val, deriveOpts{through: func(n string) bool {
+					return strings.Contains(n, "/commonerrors.Wrap") || strings.Contains(n, "/commonerrors.Describe") || strings.Contains(n, "ConvertFileSystemError")
+				}}) {
+					if l == ssa.Value(call) || sameValue(l, call) {
+						continue
+					}
+					if _, isC := l.(*ssa.Const); isC {
+						continue
+					}
+					if isFreshError(l) {
+						bad = c.ipos(r)
+					}
+				}
+			}
+			c.check(bad == "", "V7", key, c.ipos(call), "the failing side hands back the guard's error",
+				"the return at "+bad+" replaces the guard's 'failed condition' error by a fresh error of another kind: callers that test for the closed filesystem by kind no longer recognise it")
+		})
+	}
+}
+
+// returnedAlongAny: result k of return r (named results spilled by a defer are loaded just before the return).
+func returnedAlongAny(r *ssa.Return, k int) ssa.Value {
+	return r.Results[k]
 }
 
 func (c *Ctx) c07UnzipTimes() {
